@@ -50,11 +50,13 @@ TARGETS = [
                             "current_to_rand_1", "current_to_pbest_1_archive", "current_to_pbest_1_archive_p_min"]),
     ("optimizers/_differentialevolution.py", ["bounds_control"]),
     ("optimizers/_shade.py", ["bounds_control_mean", "randc01", "randn01"]),
+    ("utils/transformations.py", ["minmax_scale"]),
     ("utils/_metrics.py", ["accuracy_score", "confusion_matrix", "recall_score", "precision_score", "f1_score"]),
 ]
 # functions without an @njit signature: parameter / return types written as the signature would be
 MANUAL_SIGS = {
     "empty_crossover": "int8[:](int8[:, :], float64[:], float64[:])",
+    "minmax_scale": "float64[:](float64[:])",
 }
 # extra fuel for while loops that consume no draws (a wrong value cannot make a theorem true: out of fuel is None and
 # the equivalence theorems show the result is Some)
@@ -408,6 +410,10 @@ class Translator:
             return f"(smul {self.coerce(a, ta, Q, node)} {b})", L(Q)
         if ta == L(Q) and tb in (Z, Q) and isinstance(op, ast.Mult):
             return f"(smul {self.coerce(b, tb, Q, node)} {a})", L(Q)
+        if ta == L(Q) and tb in (Z, Q) and isinstance(op, ast.Sub):
+            return f"(vsubs {a} {self.coerce(b, tb, Q, node)})", L(Q)
+        if ta == L(Q) and tb in (Z, Q) and isinstance(op, ast.Div):
+            return f"(vdivs {a} {self.coerce(b, tb, Q, node)})", L(Q)
         raise Untranslatable(node, f"operator {type(op).__name__} on {ta}, {tb}")
 
     def subscript(self, fn, sc, e, pre):
@@ -491,6 +497,17 @@ class Translator:
             if not is_list(t):
                 raise Untranslatable(e, "copy of a non-array")
             return c, t
+        if isinstance(f, ast.Attribute) and f.attr in ("max", "min") and not e.args and not e.keywords:
+            c, t = self._expr(fn, sc, f.value, pre)
+            if t == L(Q):
+                return f"(Q{f.attr}_list {c})", Q
+            raise Untranslatable(e, f".{f.attr}() of {t}")
+        if name == "np.ones_like":
+            kw = self._kwargs(e, ["a", "dtype"])
+            c, t = self._expr(fn, sc, kw["a"], pre)
+            if t == L(Q) and self._dtype(kw.get("dtype")) == Q:
+                return f"(onesQ (zlen {c}))", L(Q)
+            raise Untranslatable(e, "ones_like of " + str(t))
         if isinstance(f, ast.Attribute) and f.attr == "astype" and len(e.args) == 1:
             c, t = self._expr(fn, sc, f.value, pre)
             want = self._dtype(e.args[0])
@@ -603,7 +620,7 @@ class Translator:
             n = ast.unparse(e.func)
             if isinstance(e.func, ast.Attribute) and e.func.attr in ("copy", "astype"):
                 return True
-            if n in ("np.empty", "np.zeros", "np.empty_like", "np.arange", "np.cumsum", "sorted", "np.unique"):
+            if n in ("np.empty", "np.zeros", "np.empty_like", "np.arange", "np.cumsum", "sorted", "np.unique", "np.ones_like"):
                 return True
             if isinstance(e.func, ast.Name) and e.func.id in self.funcs:
                 return self.funcs[e.func.id]["returns_fresh"]
@@ -1088,7 +1105,7 @@ def ensure(names):
     return r
 
 
-C11_FUNCS = ["binary_search_interval", "check_for_value", "argsort_k", "find_pbest_id", "sattolo_shuffle",
+C11_FUNCS = ["minmax_scale", "binary_search_interval", "check_for_value", "argsort_k", "find_pbest_id", "sattolo_shuffle",
              "random_weighted_sample", "random_sample", "flip_coin", "randint", "proportional_selection",
              "rank_selection", "tournament_selection"]
 C06_FUNCS = C11_FUNCS + ["empty_crossover", "binomialGA", "one_point_crossover", "two_point_crossover", "uniform_crossover",
